@@ -1,8 +1,150 @@
-From Coq Require Import List ZArith Bool Lia.
-From PV Require Import C10.Model C10.Spec.
+(* C10 - statements about the entry points (slice_spect_data, chunk_tokens, chunk_utt), assembled from the
+   per-policy developments. *)
+From Coq Require Import List ZArith Bool Arith Lia Sorted.
+From PV Require Export C10.Model C10.Spec C10.Lists C10.ProofsTokens C10.ProofsFixed C10.ProofsRef
+     C10.ProofsAliOps C10.ProofsAliRows C10.ProofsAli C10.ProofsAliSpec C10.ProofsDir.
 Import ListNotations.
 Local Open Scope Z_scope.
 
-Lemma relative_boundaries_refuted_stub :
-  fst (chunk_tokens as_coded [[(8, 2, 5)]] [(2, 9)] None false false) = [[(8, 4, 7)]].
-Proof. vm_compute. reflexivity. Qed.
+(* ---- slice_spect_data ---- *)
+Lemma dispatch : forall v T inp il ol wt vo lobe, (1 <= T)%nat -> 0 <= lobe ->
+  slice_spect_data v T inp il ol wt vo lobe
+  = match inp with
+    | InFixed N => slice_fixed v N (Z.of_nat T) il wt vo lobe
+    | InAli rows => slice_ali v T rows il wt vo lobe
+    | InRef rows => slice_ref v T rows il ol wt vo lobe
+    end.
+Proof.
+  intros. unfold slice_spect_data. destruct (Nat.eqb_spec T 0); [lia|].
+  destruct (Z.ltb_spec lobe 0); [lia|]. reflexivity.
+Qed.
+
+Theorem sd_fixed_windows_spec : forall v N T in_lens other_lens wt vo lobe,
+  d3 v = false -> (1 <= T)%nat -> 0 <= lobe -> lens_ok N (Z.of_nat T) in_lens ->
+  exists out, slice_spect_data v T (InFixed N) in_lens other_lens wt vo lobe = Some out
+              /\ fixed_spec N (len_of (Z.of_nat T) in_lens) wt vo lobe out.
+Proof. intros. rewrite dispatch by assumption. apply fixed_windows_spec; try assumption. lia. Qed.
+
+Theorem sd_ali_windows_spec : forall v T rows in_lens other_lens wt vo lobe,
+  d1 v = false -> d4 v = false -> (1 <= T)%nat -> 0 <= lobe ->
+  Forall (fun r => length r = T) rows -> lens_ok (length rows) (Z.of_nat T) in_lens ->
+  exists out, slice_spect_data v T (InAli rows) in_lens other_lens wt vo lobe = Some out
+              /\ ali_spec rows (len_of (Z.of_nat T) in_lens) wt vo lobe out.
+Proof. intros. rewrite dispatch by assumption. now apply ali_windows_spec. Qed.
+
+Theorem sd_ref_windows_spec : forall v T rows in_lens other_lens wt vo lobe,
+  d2 v = false -> (1 <= T)%nat -> 0 <= lobe -> ref_lens_ok T rows in_lens other_lens ->
+  exists out, slice_spect_data v T (InRef rows) in_lens other_lens wt vo lobe = Some out
+              /\ ref_spec rows (ref_len T in_lens) (ref_other T rows in_lens other_lens) wt vo lobe out.
+Proof. intros. rewrite dispatch by assumption. now apply ref_windows_spec. Qed.
+
+(* sequences of length 0 have no windows, and the T = 0 early return gives none *)
+Theorem fixed_len0_no_windows : forall wt vo lobe out, 0 <= lobe -> fixed_seq_spec wt vo lobe 0 out -> out = [].
+Proof.
+  intros wt vo lobe out Hl (K & E & H). destruct K as [|K]; [assumption|exfalso].
+  pose proof (proj1 (H 0%nat) ltac:(lia)) as Hk. unfold fx_keep, fx_win, fx_mid, inside in Hk.
+  pose proof (half_sym lobe Hl) as Hh.
+  assert (0 <= (lobe + 1) / 2) by (apply Z.div_pos; lia).
+  destruct wt, vo; cbn [fx_off fx_size fst snd] in Hk; rewrite ?Hh in Hk; lia.
+Qed.
+
+Theorem empty_input_no_windows : forall v inp il ol wt vo lobe, slice_spect_data v 0 inp il ol wt vo lobe = Some [].
+Proof. reflexivity. Qed.
+
+(* with valid_only every returned window lies inside its sequence (non-negative start, end within the length the
+   policy is given: in_lens / T for fixed and ali, other_lens for ref) *)
+Theorem sd_valid_only_inside : forall v T inp in_lens other_lens wt lobe out w n,
+  d1 v = false -> d2 v = false -> d3 v = false -> d4 v = false -> (1 <= T)%nat -> 0 <= lobe ->
+  match inp with
+  | InFixed N => lens_ok N (Z.of_nat T) in_lens
+  | InAli rows => Forall (fun r => length r = T) rows /\ lens_ok (length rows) (Z.of_nat T) in_lens
+  | InRef rows => ref_lens_ok T rows in_lens other_lens
+  end ->
+  slice_spect_data v T inp in_lens other_lens wt true lobe = Some out -> In (w, Z.of_nat n) out ->
+  inside (match inp with
+          | InRef rows => ref_other T rows in_lens other_lens n
+          | _ => len_of (Z.of_nat T) in_lens n
+          end) w.
+Proof.
+  intros v T inp in_lens other_lens wt lobe out w n H1 H2 H3 H4 HT Hl Hok Hs Hin. destruct inp as [N|rows|rows].
+  - destruct (sd_fixed_windows_spec v N T in_lens other_lens wt true lobe H3 HT Hl Hok) as (o & Ho & Hsp).
+    rewrite Ho in Hs. inversion Hs; subst o. apply (fixed_valid_inside _ _ _ _ _ Hsp _ _ Hin).
+  - destruct Hok as [Hr Hok].
+    destruct (sd_ali_windows_spec v T rows in_lens other_lens wt true lobe H1 H4 HT Hl Hr Hok) as (o & Ho & Hsp).
+    rewrite Ho in Hs. inversion Hs; subst o. destruct (ali_valid_inside _ _ _ _ _ Hl Hsp _ _ Hin) as [Hn Hi].
+    pose proof (len_of_range _ _ _ _ Hok Hn). unfold zlen in Hi. rewrite firstn_length in Hi.
+    rewrite Forall_forall in Hr. rewrite (Hr (nth n rows [])) in Hi by (apply nth_In; assumption).
+    replace (Z.of_nat (Nat.min (Z.to_nat (len_of (Z.of_nat T) in_lens n)) T)) with (len_of (Z.of_nat T) in_lens n) in Hi by lia.
+    exact Hi.
+  - destruct (sd_ref_windows_spec v T rows in_lens other_lens wt true lobe H2 HT Hl Hok) as (o & Ho & Hsp).
+    rewrite Ho in Hs. inversion Hs; subst o. apply (ref_valid_inside _ _ _ _ _ _ Hsp _ _ Hin).
+Qed.
+
+(* ---- chunk_tokens ---- *)
+Definition tokens_shape_ok (refs : list (list (Z * Z * Z))) (slices : list (Z * Z)) (R : nat) : Prop :=
+  Forall (fun r => length r = R) refs /\ length slices = length refs.
+
+Theorem tokens_kept_spec : forall v refs slices ref_lens partial retain R n,
+  tokens_shape_ok refs slices R -> (n < length refs)%nat -> (retain = true \/ k1 v = false) ->
+  let out := chunk_tokens v refs slices ref_lens partial retain in
+  tokens_row_spec partial retain (rowL ref_lens n) (nth n slices (0, 0)) (nth n refs []) (nth n (fst out) [])
+  /\ nth n (snd out) 0 = zlen (nth n (fst out) [])
+  /\ length (fst out) = length refs /\ length (snd out) = length refs.
+Proof.
+  intros v refs slices ref_lens partial retain R n [HR Hl] Hn Hv out.
+  destruct (chunk_tokens_nth v refs slices ref_lens partial retain R n HR Hl Hn) as (L1 & L2 & E & El).
+  fold out in L1, L2, E, El. rewrite E. repeat split; try assumption.
+  - now apply row_out_meets_spec.
+  - now rewrite <- E.
+Qed.
+
+(* whatever the boundary arithmetic: the kept tokens are the spec's, in the order of the source *)
+Theorem tokens_order_preserved : forall v refs slices ref_lens partial retain R n,
+  tokens_shape_ok refs slices R -> (n < length refs)%nat ->
+  let out := chunk_tokens v refs slices ref_lens partial retain in
+  subseq (map tk_tok (nth n (fst out) [])) (map tk_tok (nth n refs []))
+  /\ map tk_tok (nth n (fst out) []) = map tk_tok (nth n (fst (chunk_tokens repaired refs slices ref_lens partial retain)) []).
+Proof.
+  intros v refs slices ref_lens partial retain R n [HR Hl] Hn out.
+  destruct (chunk_tokens_nth v refs slices ref_lens partial retain R n HR Hl Hn) as (_ & _ & E & _).
+  destruct (chunk_tokens_nth repaired refs slices ref_lens partial retain R n HR Hl Hn) as (_ & _ & E' & _).
+  fold out in E. rewrite E, E'. split; [apply row_out_tok_subseq|].
+  unfold row_out. rewrite !map_map. apply map_ext. intros [[t s] e]. unfold shift_of, shift_tok. destruct retain; reflexivity.
+Qed.
+
+Theorem retain_keeps_boundaries : forall v refs slices ref_lens partial R n,
+  tokens_shape_ok refs slices R -> (n < length refs)%nat ->
+  subseq (nth n (fst (chunk_tokens v refs slices ref_lens partial true)) []) (nth n refs []).
+Proof.
+  intros v refs slices ref_lens partial R n [HR Hl] Hn.
+  destruct (chunk_tokens_nth v refs slices ref_lens partial true R n HR Hl Hn) as (_ & _ & E & _).
+  rewrite E. apply row_out_subseq.
+Qed.
+
+Theorem relative_boundaries_characterised : forall v refs slices ref_lens partial R n,
+  tokens_shape_ok refs slices R -> (n < length refs)%nat -> k1 v = true ->
+  nth n (fst (chunk_tokens v refs slices ref_lens partial false)) []
+  = map (fun x => (tk_tok x, tk_start x + 2 * fst (nth n slices (0, 0)), tk_end x + 2 * fst (nth n slices (0, 0))))
+        (nth n (fst (chunk_tokens repaired refs slices ref_lens partial false)) [])
+  /\ snd (chunk_tokens v refs slices ref_lens partial false) = snd (chunk_tokens repaired refs slices ref_lens partial false).
+Proof.
+  intros v refs slices ref_lens partial R n [HR Hl] Hn Hv.
+  destruct (chunk_tokens_nth v refs slices ref_lens partial false R n HR Hl Hn) as (_ & _ & E & _).
+  destruct (chunk_tokens_nth repaired refs slices ref_lens partial false R n HR Hl Hn) as (_ & _ & E' & _).
+  rewrite E, E'. split; [now apply row_out_as_coded|].
+  now rewrite !(chunk_tokens_rows _ refs slices ref_lens partial false R HR Hl).
+Qed.
+
+Theorem relative_boundaries_refuted :
+  exists refs slices,
+    tokens_shape_ok refs slices 1
+    /\ fst (chunk_tokens as_coded refs slices None false false) = [[(8, 4, 7)]]
+    /\ ~ tokens_row_spec false false None (nth 0 slices (0, 0)) (nth 0 refs []) [(8, 4, 7)]
+    /\ tokens_row_spec false false None (nth 0 slices (0, 0)) (nth 0 refs []) [(8, 0, 3)].
+Proof.
+  exists [[(8, 2, 5)]], [(2, 9)].
+  assert (Hs : tokens_row_spec false false None (2, 9) [(8, 2, 5)] [(8, 0, 3)])
+    by exact (row_out_meets_spec repaired false false None (2, 9) [(8, 2, 5)] (or_intror eq_refl)).
+  split; [split; [repeat constructor|reflexivity]|]. split; [reflexivity|]. split; [|exact Hs].
+  intros H. pose proof (selects_unique _ _ _ _ _ _ _ _ H Hs). discriminate.
+Qed.
